@@ -791,6 +791,40 @@ class ArrayTheory:
             return a.t == b.t
         return self.to_V(a) == self.to_V(b)
 
+    # ---- order-preserving sub-sequences --------------------------------------------------------
+    def make_filter(self, st, base, keep_idx, elt=None, taint=E.FALSE, pure_selection=True, name='filter'):
+        """The sub-sequence of `base` at the positions i with keep_idx(i), in order: length n2, a strictly increasing
+        position function pos (with inverse inv on the kept positions) and coverage of every kept position."""
+        n2 = self.fresh('flen', I)
+        pos = z3.Function('pos!%d' % self.counter, I, I)
+        inv = z3.Function('inv!%d' % self.counter, I, I)
+        self.counter += 1
+        st.assume(z3.And(n2 >= 0, n2 <= base.n))
+        def q_pos(en, s, j):
+            return z3.Implies(z3.And(j >= 0, j < n2),
+                              z3.And(pos(j) >= 0, pos(j) < base.n, keep_idx(en, s, pos(j)), inv(pos(j)) == j,
+                                     z3.Implies(j + 1 < n2, pos(j) < pos(j + 1)),
+                                     z3.Implies(j > 0, pos(j - 1) < pos(j))))
+        def q_cov(en, s, i):
+            return z3.Implies(z3.And(i >= 0, i < base.n, keep_idx(en, s, i)),
+                              z3.And(inv(i) >= 0, inv(i) < n2, pos(inv(i)) == i))
+        self.add_qfact(st, q_pos, name='filter-pos')
+        self.add_qfact(st, q_cov, name='filter-cover')
+        f_elt = elt or (lambda en, s, x: x)
+        out = Arr(n2, lambda en, s, j: f_elt(en, s, base.at(en, s, pos(j))), np=False, taint=taint, name=name)
+        out.pos, out.inv, out.src = pos, inv, base
+        if pure_selection:
+            # lemma of the sequence theory (strictly increasing enumerations of the same set of positions coincide):
+            # two selections from equal base sequences with pointwise equivalent predicates are equal sequences
+            reg = list(st.__dict__.get('_filters', []))
+            for (b2, k2, o2) in reg:
+                same_base = E.TRUE if b2 is base else self.seq_equal_term(st, b2, base)
+                ext = self.defined_bool(st, 'same_selection', base.n, lambda en, s, i: keep_idx(en, s, i) == k2(en, s, i))
+                st.assume(z3.Implies(z3.And(same_base, ext), self.seq_equal_term(st, o2, out)))
+            reg.append((base, keep_idx, out))
+            st._filters = reg
+        return out
+
     # ---- comprehensions over sequences ----------------------------------------------------
     def arr_comp(self, st, e, kind):
         """[elt for x in xs]           -> lazy elementwise map
@@ -835,28 +869,10 @@ class ArrayTheory:
         if not g.ifs:
             out = Arr(it.n, lambda en, s, i: elt(en, s, it.at(en, s, i)), np=is_np, taint=it.taint, name='map')
             return out
-        n2 = self.fresh('flen', I)
-        pos = z3.Function('pos!%d' % self.counter, I, I)
-        inv = z3.Function('inv!%d' % self.counter, I, I)
-        self.counter += 1
-        st.assume(z3.And(n2 >= 0, n2 <= it.n))
-        # positions are in range, strictly increasing, and satisfy the filter
-        def q_pos(en, s, j):
-            x = it.at(en, s, pos(j))
-            return z3.Implies(z3.And(j >= 0, j < n2),
-                              z3.And(pos(j) >= 0, pos(j) < it.n, keep(en, s, x), inv(pos(j)) == j,
-                                     z3.Implies(j + 1 < n2, pos(j) < pos(j + 1)),
-                                     z3.Implies(j > 0, pos(j - 1) < pos(j))))
-        # coverage: every source index that satisfies the filter is some position
-        def q_cov(en, s, i):
-            x = it.at(en, s, i)
-            return z3.Implies(z3.And(i >= 0, i < it.n, keep(en, s, x)),
-                              z3.And(inv(i) >= 0, inv(i) < n2, pos(inv(i)) == i))
-        # monotonicity between any two instantiated positions
-        self.add_qfact(st, q_pos, name='filter-pos')
-        self.add_qfact(st, q_cov, name='filter-cover')
-        out = Arr(n2, lambda en, s, j: elt(en, s, it.at(en, s, pos(j))), np=is_np, taint=it.taint, name='filter')
-        out.pos, out.inv, out.src = pos, inv, it
+        identity = isinstance(e.elt, ast.Name) and isinstance(g.target, ast.Name) and e.elt.id == g.target.id
+        out = self.make_filter(st, it, lambda en, s, i: keep(en, s, it.at(en, s, i)),
+                               (lambda en, s, x: x) if identity else elt, taint=it.taint, pure_selection=identity)
+        n2 = out.n
         # definitional link to the counting spec function: [x for x in s if len(x) == k] has count_len_eq(s, k) elements
         if len(g.ifs) == 1 and isinstance(g.target, ast.Name) and isinstance(e.elt, ast.Name) and e.elt.id == g.target.id:
             c = g.ifs[0]
